@@ -151,6 +151,26 @@ def run(ctx):
                               'desc': [c.name for c in d2], 'arities': sorted({len(r) for r in r2})})
             else:
                 ctx.violation('wildcard:%s:subquery:%s' % (tname, type(d2).__name__), 'SELECT * FROM (SELECT * ...) fails: %s' % d2, {'table': tname}, 'C2S')
+    # a parsed `SELECT *` is re-used: the wildcard follows the table the statement runs against each time
+    from beanquery import parser as _parser
+    star = _parser.parse('SELECT * FROM #items')
+    star_sub = _parser.parse('SELECT * FROM (SELECT * FROM #items)')
+    layouts = [[('sku', 'str'), ('qty', 'int')], [('qty', 'int'), ('price', 'Decimal'), ('sku', 'str')], [('x', 'int')],
+               [('sku', 'str'), ('qty', 'int')]]
+    shared = ht.connection()
+    for stmt, label in ((star, 'star'), (star_sub, 'star-subquery')):
+        for lay in layouts:
+            row = tuple({'str': 'a', 'int': 1, 'Decimal': decimal.Decimal('1.5')}[t] for _, t in lay)
+            for conn in (ht.connection(ht.HarnessTable('items', lay, [row])), shared):
+                conn.tables['items'] = ht.HarnessTable('items', lay, [row])
+                nid += 1
+                status, desc, rows = selectq.run_query(conn, stmt)
+                if status != 'ok':
+                    ctx.violation('wildcard:reused-ast:%s:%s' % (label, type(desc).__name__), 're-executing a parsed SELECT * fails: %s' % desc,
+                                  {'layout': lay}, 'C2S')
+                    continue
+                trace.append({'id': nid, 'ntargets': 0, 'star': 1, 'kind': 'harness', 'cols': [n for n, _ in lay], 'names': [],
+                              'desc': [c.name for c in desc], 'arities': sorted({len(r) for r in rows})})
     # ledger statements with expression names and hidden helpers
     for text, names in [
             ('SELECT account, number * 2, year(date) AS y FROM #postings ORDER BY date, lineno', ['account', 'number * 2', 'y']),
